@@ -164,6 +164,9 @@ def run(ctx):
                 crng = random.Random(seed)
                 try:
                     case = I.random_case(fmt, crng, **o)
+                    if fmt == "swan":
+                        # reader options that must not change what is returned (directions are compared by label, locations by position)
+                        case["read_kw"] = crng.choice(({}, {}, {"as_site": True}))      # (dirorder=False leaves the file's own labels, e.g. -45 for 315: not compared)
                     exp0 = I.expected(case)
                     case = permute(case, v["order"]) if len(case["times"]) == v["nrec"] else case
                     exp1 = I.expected(case)
